@@ -27,6 +27,9 @@ type Outcome struct {
 	Inconclusive bool           // e.g. linearizability checker timed out; never reported
 	Counters     map[string]int // harness-level probes / fault-fired counts
 	Sample       any            // optional human-readable rendering of what ran (history, visits)
+	// NonTrivial overrides the default non-triviality rule (a contended decision switched tasks or a
+	// fault fired) for harnesses whose environment knob is not the schedule.
+	NonTrivial *bool
 }
 
 // Harness describes one property check.
@@ -261,7 +264,11 @@ func batch[W any](t *testing.T, h Harness[W]) {
 		if o.Inconclusive {
 			sum.Inconclusive++
 		}
-		if o.Res.Switches > 0 || fired > 0 {
+		nontrivial := o.Res.Switches > 0 || fired > 0
+		if o.NonTrivial != nil {
+			nontrivial = *o.NonTrivial
+		}
+		if nontrivial {
 			sum.NonTrivial++
 			wj, _ := json.Marshal(w)
 			hh := fnv.New64a()
@@ -273,7 +280,7 @@ func batch[W any](t *testing.T, h Harness[W]) {
 				hashes[hh.Sum64()] = struct{}{}
 			}
 		}
-		if len(sum.Samples) < 2 && o.Class == "" && o.Res.Switches > 0 {
+		if len(sum.Samples) < 2 && o.Class == "" && nontrivial {
 			wj, _ := json.Marshal(w)
 			sum.Samples = append(sum.Samples, map[string]any{"index": idx, "run_seed": rs, "policy": cfg.Policy, "workload": json.RawMessage(wj),
 				"steps": o.Res.Steps, "switches": o.Res.Switches, "faults": o.Res.Faults, "observed": o.Sample})
